@@ -36,12 +36,13 @@ def c14(res, tier, seed, replay):
         for k in ((0, 1, 2) if tier == "quick" else (0, 1, 2, 3)):
             for mode in ("fail", "exit"):
                 faults.append(f"{role}:{k}:{mode}")
-    faults += ["phase:0:fail", "phase:0:exit"]
+    faults += ["phase:0:fail", "phase:0:exit", "down:0:off", "down:1:off", "down:2:off"]
     i = 0
     for old in (1, 2, 3):
         for kind in kinds:
             runs.append({"name": f"sync-{old}-{kind}-clean", "timeout": 900,
-                         "args": ["-old", old, "-kind", kind, "-seed", seed * 100 + i, "-n", 1 if tier == "quick" else 3]})
+                         "args": ["-old", old, "-kind", kind, "-seed", seed * 100 + i, "-n", 1 if tier == "quick" else 3]
+                                 + (["-seproot"] if (i + seed) % 2 else [])})
             i += 1
     reps = 1 if tier == "quick" else 3
     for rep in range(reps):
@@ -49,7 +50,8 @@ def c14(res, tier, seed, replay):
             old = 1 + (j + rep) % 3
             kind = kinds[(j + rep) % 3]
             runs.append({"name": f"sync-{old}-{kind}-{fl.replace(':', '_')}-{rep}", "timeout": 900,
-                         "args": ["-old", old, "-kind", kind, "-big", "-fault", fl, "-seed", seed * 100 + 40 + j + 100 * rep, "-n", 1]})
+                         "args": ["-old", old, "-kind", kind, "-big", "-fault", fl, "-seed", seed * 100 + 40 + j + 100 * rep, "-n", 1]
+                                 + (["-seproot"] if (j + rep + seed) % 3 == 0 else [])})
     results = drive_and_validate(res, runs, module="SyncTrace", cmd="sync", workers=4, invariants=())
     nf = ndied = nfailsync = 0
     distinct = set()
@@ -96,7 +98,8 @@ def c14(res, tier, seed, replay):
     res.coverage["rule"] = ("scenario = (old server count 1-3, grow / shrink / replace, fault); data: 6 users with 1-2 collections of real shards "
                             "(per-shard maximum 3 points) plus, in fault runs, synthetic shard files of 100 B / chunk-1 / chunk / 2chunk-1 / 2chunk / "
                             "2chunk+1 bytes (chunk = 8 MiB); every participant is a node process started with the new list; fault = fail or "
-                            "process exit at send chunk k, receive chunk k (k = 0..2, thorough 0..3) or between the two phases; then restart and two clean "
+                            "process exit at send chunk k, receive chunk k (k = 0..2, thorough 0..3) or between the two phases, or a destination of records that is "
+                            "not running during the first round; a third of the scenarios keep shard files in a directory of their own (shardManager.rootDir != rootDir); then restart and two clean "
                             "rounds; TLC checks after every synchronisation: no file without an identical complete copy, source removed only after "
                             "the owner's copy is identical, clean synchronisations succeed, finally everything on exactly its owner and all points readable")
     res.assumptions += ["owner = cluster.RendezvousHash under the new list (routing itself is C13)",
